@@ -203,7 +203,8 @@ def handle (fields : List String) : String :=
       let re := (Generated.namedRx.lookup "mistune.util._striptags_re").getD .fail
       let agree := (tStriptags re out).erase == (tsStripT .text out).erase
       "ok " ++ (if refined then "R" else "r") ++ (if out.safeB then "S" else "s") ++ (if tagOk then "T" else "t") ++ (if wt then "W" else "w")
-        ++ (if agree then "A" else "a") ++ " " ++ encStr out.erase ++ " " ++ encStr (tsStripT .text out).erase
+        ++ (if agree then "A" else "a") ++ (if toks.all (balTreeOk tt 64) then "B" else "b")
+        ++ (if bsRun (BS.init []) out.erase == some (BS.init []) then "N" else "n") ++ " " ++ encStr out.erase ++ " " ++ encStr (tsStripT .text out).erase
     | _ => "unparsable"
   | ["ping"] => "pong"
   | _ => "bad-op"
